@@ -217,7 +217,7 @@ class Runner:
         if us: cmd += ['--unwindset', us]
         return cmd
 
-    def tune_and_run(self, q, cfile, rec, keysuffix='', final_flags=('--trace',)):
+    def tune_and_run(self, q, cfile, rec, keysuffix='', final_flags=('--trace',), init=None):
         key = '%s/%s%s' % (self.prop, q.name, keysuffix)
         cache = load_cache().get(key)
         bounds = dict(q.unwindset)
@@ -229,6 +229,8 @@ class Runner:
             except OSError: pass
         deadline = time.time() + q.timeout
         tuned = False
+        if init:     # the vacuity twin starts from the bounds found for the main query (same code without the assertions)
+            bounds.update(init[0]); default = max(default, init[1])
         if cache:
             bounds.update(cache.get('bounds', {})); default = cache.get('default', default)
             tuned = True
@@ -464,7 +466,7 @@ class Runner:
                 wfile, _ = self.build_ir(q, d, True)
                 wrec = {}
                 t1 = time.time()
-                wres, wout = self.tune_and_run(q, wfile, wrec, '#witness', ['--no-pointer-check', '--no-bounds-check', '--no-div-by-zero-check', '--no-pointer-primitive-check'])
+                wres, wout = self.tune_and_run(q, wfile, wrec, '#witness', ['--no-pointer-check', '--no-bounds-check', '--no-div-by-zero-check', '--no-pointer-primitive-check'], init=(rec.get('bounds', {}), rec.get('default_unwind', q.unwind)))
                 wwall = time.time() - t1
                 rec['cbmc_calls'] = rec.get('cbmc_calls', 0) + wrec.get('cbmc_calls', 0)
                 if wres is None:
